@@ -31,11 +31,6 @@ continuation re-establishes it by itself whenever the queue still holds a record
 namespace Backend
 open Backend.PB
 
-/-- the reads of context `i` have been committed: if nothing is left to read, the reader position has been published
-    (`rHist` is the history of published reader positions, newest first) -/
-def ReadsCommitted (s : BSt) (i : Nat) : Prop :=
-  (s.th i).qStmts = [] → (s.th i).q.rHist.headD 0 = (s.th i).q.rpos
-
 /-- **The drain publishes.** After the continuation described above, the context of actor `a` holds nothing (transit
     buffer and queue empty) and the newest published reader position is the writer position: the producer's next
     reload sees the whole capacity free. -/
